@@ -11,6 +11,7 @@ CONSTANTS
  FP <- FPid
  MaxOps = 3
  MaxCount = 3
+ WithScan = FALSE
  AllowClose = TRUE
  Dev = {}
  MaxHist = 18
